@@ -40,7 +40,7 @@ func (o *in) fireCmd() error {
 	cmd.Stdout = wr
 	err := cmd.Start()
 	if err != nil {
-		o.Lock()
+		// we still hold the lock here
 		o.hasProc = false
 		o.Unlock()
 		return err
